@@ -77,7 +77,7 @@ func (c *Controller) handleEvent(evt config.Event) {
 	case *config.SvcRemoveEvent:
 		c.handleSvcDel(evt.Name)
 	case *config.SvcConfigEvent:
-		c.handleSvcConfigUpdate(evt.Name, evt.Config)
+		c.handleSvcConfigUpdate(evt.Name, evt.Config, evt.Endpoints)
 	case *config.SvcEndpointEvent:
 		// NOTE: Keep the order same as the config which produces the event,
 		// an endpoint could be in both of them.
@@ -215,10 +215,12 @@ func (c *Controller) handleSvcEndpointsReplace(svcName string, endpoints []*serv
 	logger.Infof("Replace all hosts of processor %s with %v", procName, hosts)
 }
 
-func (c *Controller) handleSvcConfigUpdate(svcName string, newCfg *service.Config) {
+func (c *Controller) handleSvcConfigUpdate(svcName string, newCfg *service.Config, endpoints []*service.Endpoint) {
 	proc, ok := c.getProc(svcName)
 	if !ok {
-		logger.Warnf("failed to get proc of service when update config: %s", svcName)
+		// The processor couldn't be created with the previous config,
+		// e.g. it was invalid. Try again with the new one.
+		c.tryEnsureProc(svcName, newCfg, endpointsToHosts(endpoints))
 		return
 	}
 	if err := proc.OnSvcConfigUpdate(newCfg); err != nil {
